@@ -277,7 +277,7 @@ def c16(q):
         "jobs": [
             {"sub": "exhaustive16", "cfgs": ["debug", "release"], "cases": 1024, "ms": 0, "hang_ms": 120_000},
             {"sub": "random", "cfgs": ["debug", "release"], "cases": 400 if q else 20_000, "ms": 25_000 if q else 300_000, "hang_ms": 120_000},
-            {"sub": "random", "cfgs": ["miri"], "cases": 4 if q else 40, "ms": 40_000 if q else 300_000, "shards": 17, "wall": 300 if q else 900},
+            {"sub": "random", "cfgs": ["miri"], "cases": 2 if q else 20, "ms": 40_000 if q else 300_000, "shards": 17, "lite": True, "wall": 300 if q else 900},
         ],
     }
 
